@@ -248,6 +248,7 @@ type PanicInfo struct {
 	File  string
 	Line  int
 	Stack string
+	Addr  uintptr // faulting address when the panic is a memory fault (debug.SetPanicOnFault)
 }
 
 var digits = regexp.MustCompile(`[0-9]+`)
@@ -284,6 +285,9 @@ func Guard(fn func()) (pi *PanicInfo) {
 	defer func() {
 		if r := recover(); r != nil {
 			pi = &PanicInfo{Value: fmt.Sprint(r)}
+			if ae, ok := r.(interface{ Addr() uintptr }); ok {
+				pi.Addr = ae.Addr()
+			}
 			pcs := make([]uintptr, 64)
 			n := runtime.Callers(2, pcs)
 			frames := runtime.CallersFrames(pcs[:n])
